@@ -169,13 +169,16 @@ pub fn with_second_site(doc: &Value, wyckoff: &Value, x: f64, y: f64, phi: f64) 
 }
 
 pub fn params_of_json(doc: &Value) -> Params {
+    // (a parameter that is not a finite number is written as null: read as NaN, which every range
+    // check refuses)
+    let num = |v: &Value| v.as_f64().unwrap_or(f64::NAN);
     Params {
-        length: doc["cell"]["length"].as_f64().unwrap(),
-        ratio: doc["cell"]["ratio"].as_f64().unwrap(),
-        angle: doc["cell"]["angle"].as_f64().unwrap(),
-        x: doc["occupied_sites"][0]["x"].as_f64().unwrap(),
-        y: doc["occupied_sites"][0]["y"].as_f64().unwrap(),
-        phi: doc["occupied_sites"][0]["angle"].as_f64().unwrap(),
+        length: num(&doc["cell"]["length"]),
+        ratio: num(&doc["cell"]["ratio"]),
+        angle: num(&doc["cell"]["angle"]),
+        x: num(&doc["occupied_sites"][0]["x"]),
+        y: num(&doc["occupied_sites"][0]["y"]),
+        phi: num(&doc["occupied_sites"][0]["angle"]),
     }
 }
 
